@@ -1,8 +1,11 @@
 (* Props/C08.v — Bets are admitted only under the published rules and indexed exactly once.
-   Admission (inversion of a successful wager), sequence numbering and the no-trace law are proved; the
-   five-index invariant over histories is decided per run by the Go monitor on the raw bet store. *)
+   Admission (inversion of a successful wager), sequence numbering and the no-trace law are proved for every state;
+   C08_indexes is the index invariant over ALL histories of the model (no hypothesis on the operations): counter =
+   number of bets, ids 1..counter pairwise distinct, uid index complete with distinct uids, pending index of a market =
+   exactly the ids of its unsettled bets (each once), settled index = exactly (settlement height, id) of the settled
+   bets (each once).  The Go monitor evaluates the same on the raw bet store of the real app. *)
 From Coq Require Import ZArith Bool List.
-From Sge Require Import Lib.Dec Model.Types Model.Orderbook Model.Chain Proofs.Inversion.
+From Sge Require Import Lib.Dec Model.Types Model.Orderbook Model.Mint Model.Chain Proofs.Inversion Proofs.BetIndex Witness.C01w.
 Import ListNotations.
 Open Scope Z_scope.
 
@@ -37,3 +40,27 @@ Theorem C08_indexed : forall s sg u a sm so ov mu al s',
       [Pay sg BETFEE (b_fee b); Pay sg POOL (b_amount b)] = Some (c_bank s', c_subs s').
 Proof. exact wager_core_record. Qed.
 Print Assumptions C08_indexed.
+
+Theorem C08_indexes : forall bk supply P vault MP t0 sw sd ops,
+  let s := run (init bk supply P vault MP t0 sw sd) ops in
+  zlen (all_bets (c_ms s)) = c_betcnt s /\
+  (forall b, In b (all_bets (c_ms s)) -> 1 <= b_id b <= c_betcnt s /\ In (b_uid b, b_id b) (c_uid2id s)) /\
+  NoDup (map b_id (all_bets (c_ms s))) /\
+  zlen (c_uid2id s) = c_betcnt s /\ NoDup (map fst (c_uid2id s)) /\
+  (forall m x, get_ms s m = Some x -> ms_pending x = unsettled_ids (ms_bets x) /\ NoDup (ms_pending x)) /\
+  NoDup (c_settledix s) /\
+  (forall h id, In (h, id) (c_settledix s) <->
+     exists b, In b (all_bets (c_ms s)) /\ b_id b = id /\ b_status b = BS_SETTLED /\ b_sheight b = h).
+Proof. exact bet_indexes_over_histories. Qed.
+Print Assumptions C08_indexes.
+
+Theorem C08_indexes_step : forall s o, binv s -> binv (fst (step s o)).
+Proof. exact step_binv. Qed.
+Print Assumptions C08_indexes_step.
+
+(* non-vacuity: in the witness history bets exist, some are settled and some still pending *)
+Example C08_indexes_witness :
+  (3 <=? c_betcnt (run c01w_init c01w_ops)) = true /\
+  (1 <=? zlen (c_settledix (run c01w_init c01w_ops))) = true /\
+  existsb (fun e => negb (match ms_pending (snd e) with [] => true | _ => false end)) (c_ms (run c01w_init c01w_ops)) = true.
+Proof. repeat split; vm_compute; reflexivity. Qed.
